@@ -344,4 +344,9 @@ def stages(tier):
     q = tier == "quick"
     return [Stage("enumerated", "enum", eval_enum, enumerate=_shard_cases(kmax=5 if q else 6), exhaustive=True),
             Stage("long", "hyp", eval_long, n=20000 if q else 400000, strategy=long_cigars),
-            Stage("polya", "hyp", eval_polya, n=8000 if q else 200000, strategy=polya_cases)]
+            Stage("polya", "hyp", eval_polya, n=8000 if q else 200000, strategy=polya_cases),
+            # the same generators and oracles driven by libFuzzer (atheris) with coverage feedback from /repo/src
+            Stage("fuzz_long", "hypfuzz", eval_long, n=6000 if q else 400000, strategy=long_cigars,
+                  shards=4 if q else 16),
+            Stage("fuzz_polya", "hypfuzz", eval_polya, n=4000 if q else 200000, strategy=polya_cases,
+                  shards=4 if q else 16)]
